@@ -575,6 +575,7 @@ pub fn run(id: &str) -> Option<bool> {
         "c01silence" => c01silence(),
         "c01reply" => super::witness_pm::c01reply(),
         "c02prune" => super::witness_pm::c02prune(),
+        "c02local" => super::witness_pm::c02local(),
         "c01session" => super::witness_pm::c01session(),
         "fp" => fp(),
         "c14" => crate::actor::verif_incrate::witness_c14(),
